@@ -2,6 +2,28 @@ package ppu
 
 // accessors / invariants usable by harnesses of other packages (overlay only; not part of the repository)
 
+// documented mode of the cycle with frame index t (0..17555): line = t/114, cycle in line = t%114
+func refMode(t int) uint8 {
+	line := t / 114
+	c := t % 114
+	switch {
+	case line >= 144:
+		return 1
+	case c < 20:
+		return 2
+	case c < 61:
+		return 3
+	}
+	return 0
+}
+
+func prevTick(t int) int {
+	if t == 0 {
+		return 17555
+	}
+	return t - 1
+}
+
 // lcdInv: representation invariant tying (ticks, mode, ly, firstLine) together; ticks is the frame index
 // the next machine cycle will consume. LY is allowed to be 0 at any time (a CPU write to FF44 clears it until
 // the next machine cycle recomputes it); lcdInvStrict is what holds right after a machine cycle.
